@@ -26,6 +26,10 @@ static void test_entry(entry_t *e, uint64_t c)
                 int faulted = GUARDED(rc = call(e, v));
                 cur_label[0] = 0;
                 out_count("null_subset_calls", 1);
+                { static int ns; if (ns < 30) { ns++; clog_on = 1;
+                  clog_title("invalid-argument calls: NULL subsets (the other pointers aim into a PROT_NONE region, so any dereference faults), then single out-of-domain scalars with byte-image comparison of every buffer");
+                  clog_event("%s with NULL mask %x over its %d pointer arguments: %s, returned %d", e->name, s, np, faulted ? "FAULTED" : "no dereference", rc);
+                  clog_on = 0; } }
                 feat(mix64(0x9a, mix64((uint64_t) (e - entries), s)));
                 if (faulted) { snprintf(key, sizeof key, "param-deref %s", e->name); out_viol("C16", key, rbuf, "%s with NULL mask %x dereferenced an argument (fault at %p) before refusing the call", e->name, s, fault_last.addr); continue; }
                 int ok = 0; for (int k = 0; k < nacc; k++) if ((unsigned) rc == accept[k]) ok = 1;
@@ -43,6 +47,9 @@ static void test_entry(entry_t *e, uint64_t c)
                 int rc = -12345, faulted = GUARDED(rc = call(e, v));
                 cur_label[0] = 0;
                 out_count("bad_scalar_calls", 1);
+                { static int ns; if (ns < 16) { ns++; clog_on = 1;
+                  clog_event("%s with argument %d = %llu (out of domain), all else valid: returned %d (documented code %d)", e->name, e->bad[b].arg, (unsigned long long) e->bad[b].value, rc, e->bad[b].code);
+                  clog_on = 0; } }
                 feat(mix64(0x9b, mix64((uint64_t) (e - entries), (uint64_t) b)));
                 if (faulted) { snprintf(key, sizeof key, "param-fault %s", e->name); out_viol("C16", key, rbuf, "%s faulted with scalar argument %d = %llu", e->name, e->bad[b].arg, (unsigned long long) e->bad[b].value); free_valid(e); continue; }
                 if (rc != e->bad[b].code) { snprintf(key, sizeof key, "param-scalar-code %s arg%d", e->name, e->bad[b].arg); out_viol("C16", key, rbuf, "%s with argument %d = %llu returned %d, documented code is %d", e->name, e->bad[b].arg, (unsigned long long) e->bad[b].value, rc, e->bad[b].code); }
